@@ -525,12 +525,30 @@ func checkPLHandler(c *fw.Ctx, fn *ssa.Function) {
 	// the version-specific check and the user-level check gate success, except on the
 	// unknown-version edge (unreachable for parsed events: NewPowerLevelContentFromEvent already
 	// needs the version)
+	// the lookups that produced the room version on which CheckPowerLevelEvent is invoked (whatever
+	// routine performs the lookup: GetRoomVersion, a registry object)
+	versionLookups := map[ssa.Value]bool{}
+	for _, call := range fw.CallsTo(fn, false, fw.NameIs("(gmsl.IRoomVersion).CheckPowerLevelEvent")) {
+		if !call.Common().IsInvoke() {
+			continue
+		}
+		if ex, isEx := fw.LoadOrigin(fw.Unwrap(call.Common().Value)).(*ssa.Extract); isEx && ex.Index == 0 {
+			versionLookups[ex.Tuple] = true
+		}
+	}
 	succ2 := func(r *ssa.Return, reach map[*ssa.BasicBlock]bool, removed map[fw.Edge]bool) []fw.SuccessPath {
 		var out []fw.SuccessPath
 		for _, sp := range succ(r, reach, removed) {
 			skip := false
 			for _, f := range fw.DomConds(sp.Ret.Block()) {
-				if v, trueMeansNil, ok := fw.NilCheck(f.If.Cond); ok && strings.HasPrefix(fw.Sig(v), "gmsl.GetRoomVersion((gmsl.PDU).Version(param:event))#1") {
+				v, trueMeansNil, ok := fw.NilCheck(f.If.Cond)
+				sameLookup := false
+				if ok {
+					if ex, isEx := fw.LoadOrigin(fw.Unwrap(v)).(*ssa.Extract); isEx && ex.Index == 1 && versionLookups[ex.Tuple] {
+						sameLookup = true
+					}
+				}
+				if ok && (sameLookup || strings.HasPrefix(fw.Sig(v), "gmsl.GetRoomVersion((gmsl.PDU).Version(param:event))#1")) {
 					// on the edge where the version lookup failed
 					onNil := f.If.Block().Succs[0] == sp.Ret.Block() == trueMeansNil
 					_ = onNil
@@ -678,7 +696,17 @@ func checkV3AndParsers(c *fw.Ctx, t *versionTable) {
 		c.SawFn(fw.FuncName(p))
 		rets := fw.Returns(p)
 		ok := len(rets) == 1 && fw.Sig(rets[0].Results[0]) == "encoding/json.Unmarshal(param:contentBytes,param:c)"
-		c.Check(ok, rule, "v10+: power levels are decoded strictly into integer fields", c.P.Pos(p.Pos()), "", "the integer parser is not a plain json.Unmarshal into PowerLevelContent")
+		dynamic := false
+		if !ok && len(rets) == 1 {
+			if cl, _ := fw.CallOf(fw.Unwrap(rets[0].Results[0])); cl != nil && (cl.Common().IsInvoke() || cl.Common().StaticCallee() == nil) {
+				dynamic = true // a codec behind an interface or a function variable (a seam): not read here
+			}
+		}
+		if dynamic {
+			c.Undecided(rule, "v10+: power levels are decoded strictly into integer fields", "the integer parser decodes through "+fw.Sig(rets[0].Results[0]))
+		} else {
+			c.Check(ok, rule, "v10+: power levels are decoded strictly into integer fields", c.P.Pos(p.Pos()), "", "the integer parser is not a plain json.Unmarshal into PowerLevelContent")
+		}
 		_, st := fw.StructFieldNames(c.P.Pkg(""), "PowerLevelContent")
 		for i := 0; i < st.NumFields(); i++ {
 			ts := st.Field(i).Type().String()
